@@ -201,6 +201,12 @@ func (s *Sys) Fingerprint() string {
 	var sb strings.Builder
 	sb.WriteString(strings.ReplaceAll(s.X.W.Dump(), fmt.Sprintf("w%d-", s.X.W.ID), "w-")) // (host names of relay targets carry the world's id)
 	fmt.Fprintf(&sb, " |pub=%v inc=%d", s.X.PubAlive, s.X.Inc)
+	for _, a := range s.O.Alphabet {
+		if a == "T" { // only searches with ticks can tell liveness states apart
+			fmt.Fprintf(&sb, " live[%s]", s.X.W.LivenessSig())
+			break
+		}
+	}
 	if s.O.Guarded {
 		fmt.Fprintf(&sb, " g[%v %v %v]", s.publishedInInc("vsh", "vsh2"), s.publishedInInc("key"), s.publishedInInc("ash"))
 	}
